@@ -2,10 +2,14 @@
    schedule.  PARTIAL: proved are the three mechanisms that prevent a second
    execution (one running script per file id at any time; a file id is handled
    once per command whatever its spellings; a target that failed in this run is
-   refused).  Equality with the serial build (C07_full_statement) is decided
-   against the implementation on every run. *)
+   refused) and, on the transition system of the lock protocol (Sched/OnceRun.v),
+   the first clause itself: for every number of processes and every
+   interleaving, one invocation with no other invocation active starts each
+   target's script at most once (C07_at_most_once_per_run).  Equality with the
+   serial build (C07_full_statement) is decided against the implementation on
+   every run. *)
 From Coq Require Import ZArith List.
-From Redo Require Import Base.Bytes Build.Model Build.LocalProofs Build.OnceProofs Sched.Locks Sched.LocksProofs.
+From Redo Require Import Base.Bytes Build.Model Build.LocalProofs Build.OnceProofs Sched.Locks Sched.LocksProofs Sched.OnceRun Sched.OnceRunProofs.
 Import ListNotations.
 
 Theorem C07_one_running : forall es s,
@@ -113,3 +117,48 @@ Example C07_example :
   | _ => (0%nat, 1%Z)
   end = (1%nat, 0%Z).
 Proof. vm_compute. reflexivity. Qed.
+
+(* ---- the first clause over every interleaving (Sched/OnceRun.v): the lock of a
+   file goes free -> held -> building -> recorded -> free; should_build runs
+   under the lock and refuses a row marked by the own run (the two serial
+   theorems above); the mark is committed before the lock is released
+   (C06_recorded_before_release).  With no other invocation active: *)
+Theorem C07_at_most_once_per_run : forall es s r f,
+  forallb (ev_of_run r) es = true -> orun es oinit = Some s ->
+  (kcount (r, f) (starts s) <= 1)%nat.
+Proof. exact at_most_once_per_run. Qed.
+Check C07_at_most_once_per_run : forall es s r f,
+  forallb (ev_of_run r) es = true -> orun es oinit = Some s ->
+  (kcount (r, f) (starts s) <= 1)%nat.
+Print Assumptions C07_at_most_once_per_run.
+
+(* with other invocations active, as long as no LATER run has recorded the
+   target: between two starts another run has recorded it *)
+Theorem C07_starts_bounded : forall es s r f,
+  orun es oinit = Some s -> has_newer r f (dones s) = false ->
+  (kcount (r, f) (starts s) <= foreign r f (dones s) + 1)%nat.
+Proof. exact starts_bounded. Qed.
+Check C07_starts_bounded : forall es s r f,
+  orun es oinit = Some s -> has_newer r f (dones s) = false ->
+  (kcount (r, f) (starts s) <= foreign r f (dones s) + 1)%nat.
+Print Assumptions C07_starts_bounded.
+
+(* the property's proviso "with no other invocation active" is needed: with a
+   later invocation recording the target in between, the earlier one starts it
+   again for every request (same shape on the binaries: the lock traces of the
+   multi-invocation runs of C06/C09/C16 are accepted by this model with three
+   starts of one file in one run) *)
+Theorem C07_once_needs_the_proviso :
+  exists es s, orun es oinit = Some s /\ kcount (1%Z, 5%Z) (starts s) = 3%nat.
+Proof. exact once_per_run_refuted_with_two_runs. Qed.
+Check C07_once_needs_the_proviso :
+  exists es s, orun es oinit = Some s /\ kcount (1%Z, 5%Z) (starts s) = 3%nat.
+Print Assumptions C07_once_needs_the_proviso.
+
+(* non-vacuity: two processes of one run ask for the same target; the second
+   finds the lock busy, gets it after the first has recorded, and may not start *)
+Example C07_once_example :
+  orun [OAcquire 10 5; OStart 1 5; ODone 1 5; ORelease 10 5; OAcquire 11 5; ORelease 11 5]%Z oinit <> None
+  /\ orun [OAcquire 10 5; OStart 1 5; ODone 1 5; ORelease 10 5; OAcquire 11 5; OStart 1 5]%Z oinit = None
+  /\ orun [OAcquire 10 5; OStart 1 5; OAcquire 11 5]%Z oinit = None.
+Proof. vm_compute. repeat split; discriminate. Qed.
